@@ -31,9 +31,9 @@ theorem gfill_secdef {inG : Bool} {w : PToken} (hw : isGFill inG w = true) :
     exact Or.inr (Or.inr (by simpa using this))
 
 /-- an expression, whitespace (inside a group: or separators), and one more operand: an implicit list -/
-theorem expr_list {inG : Bool} {e x ws : List PToken} (he : ExprOK inG e false) (hx : ListOpdOK x)
+theorem expr_list {c1 c2 : Nat} {inG : Bool} {e x ws : List PToken} (he : ExprOK c1 inG e false) (hx : ListOpdOK c2 x)
     (hws : ∀ w ∈ ws, isGFill inG w = true) (hwsp : ∃ w ∈ ws, setsList w = true) :
-    ExprOK inG (e ++ (ws ++ x)) false := by
+    ExprOK (c1 + c2) inG (e ++ (ws ++ x)) false := by
   intro st0 ug p base hO hfs hprios hcg hk hsp pos hnum rest
   have hwne : ws ≠ [] := by obtain ⟨w, hw, _⟩ := hwsp; exact List.ne_nil_of_mem hw
   obtain ⟨hbase, _⟩ := hfs.base_eq
@@ -43,7 +43,7 @@ theorem expr_list {inG : Bool} {e x ws : List PToken} (he : ExprOK inG e false) 
   have hnumw := numbered_prefix ws _ _ hnum1
   have hnumx := numbered_append ws x _ hnum1
   -- the expression so far
-  obtain ⟨stE, E, re, cb, hloopE, hinvE, hgsE, hcgE, ho1E, ho2E, hrdE, hrefE⟩ :=
+  obtain ⟨stE, E, re, cb, hloopE, hinvE, hgsE, hcgE, ho1E, ho2E, hrdE, hcntE, hrefE⟩ :=
     he st0 ug p base hO hfs hprios hcg hk hsp pos hnume ((ws ++ x) ++ rest)
   have hkE : KindOK stE ug inG := by
     apply hk.transfer (base := base) _ ho2E
@@ -71,14 +71,22 @@ theorem expr_list {inG : Bool} {e x ws : List PToken} (he : ExprOK inG e false) 
     show stE'.currentGroup = if stE'.groupStack.isEmpty then none else some (stE'.groupStack.size - 1)
     rw [hcgE', hgsE', hcgE, hgsE]; exact hcg
   -- the operand
-  obtain ⟨st2, sub, cb', P, hloopX, hres, hP, hrefX⟩ :=
+  obtain ⟨st2, sub, cb', P, hloopX, hres, hP, hcntX, hrefX⟩ :=
     hx stE' ug nodes' info hinvE'.hug hinvE'.adjust' (hnnlE'.trans hinvE.nnl) hcfl' hprevT hpt hir hOL hpriosL hcgL haboveL _
       hnumx rest
   obtain ⟨re', hinv2, hdefs2, ho12, ho22, hdn⟩ := hK st2 sub cb' hres
   have hnE'' : (normP stE').nodes = stE.nodes := hnE'
   rw [hnE''] at hinv2 hdefs2 ho12 ho22 hdn
+  have hLs : (listState stE' nodes' info).nodes.size = stE.nodes.size + 1 := by
+    have : (listState stE' nodes' info).nodes.size = nodes'.size + 1 := by simp [listState]
+    rw [this, hsz', hnE'']
+  have hcnt : (insertC cb (prioAt stE.nodes) 220 false stE.nodes.size (normP stE').lastToken.col sub E).inorder.length + base +
+      (c1 + c2) = st2.nodes.size := by
+    rw [insertC_inorder]
+    simp only [List.length_append, List.length_cons]
+    omega
   refine ⟨st2, _, re', cb', ?_, hinv2, ?_, ?_, fun j hj => by rw [ho22 j hj, ho1E j hj],
-    fun j hj => by rw [ho12 j hj, ho2E j hj], fun _ => hres.ready, ?_⟩
+    fun j hj => by rw [ho12 j hj, ho2E j hj], fun _ => hres.ready, hcnt, ?_⟩
   · have e1 : e ++ (ws ++ x) ++ rest = e ++ ((ws ++ x) ++ rest) := by simp
     have e2 : (ws ++ x) ++ rest = ws ++ (x ++ rest) := by simp
     rw [e1, hloopE, e2, hloopW, hloopX]
